@@ -62,6 +62,8 @@ def render_need(n):
     if k == "cmp":
         goal = n["goal"]
         g = goal["path"] if isinstance(goal, dict) else lit(goal)
+        if n.get("squote") and isinstance(goal, str):
+            g = "'%s'" % goal        # the single quoted spelling of a string goal
         if isinstance(goal, dict) and goal.get("field"):
             g = "%s in %s" % (goal["field"], goal["path"])       # explicit goal field
         st = n["state"] if not n.get("sfield") else "%s in %s" % (n["sfield"], n["state"])
